@@ -7,7 +7,10 @@ for p in mutants/*.patch seeded/*/patch.diff; do
   echo "$p" | grep -q "$pat" || continue
   case "$p" in
     mutants/*) id=$(basename "$p" | cut -d_ -f1);;
-    *) id=$(basename "$(dirname "$p")" | cut -d- -f1);;
+    *) id=$(basename "$(dirname "$p")" | cut -d- -f1)
+       # the check that catches a seed is recorded in its meta.json (a seed written for one property may be caught by another's check)
+       m=$(python3 -c "import json,re,sys; d=json.load(open(sys.argv[1])); print(re.search(r'vcheck (C[0-9]+)', d.get('detected_by',{}).get('check','')).group(1))" "$(dirname "$p")/meta.json" 2>/dev/null)
+       [ -n "$m" ] && id=$m;;
   esac
   t0=$(date +%s)
   out=$(timeout 2400 tools/vmutant "$p" "$id" quick 2>&1 | grep -v "^WARNING conda")
